@@ -119,7 +119,11 @@ def generate(prng, tier, index):
         sc["samples"] = max(2, sc["samples"])
     if prng.random() < 0.15 and all(x < 2 ** 31 for k in keys for x in k):       # sums of N int64 degrees must stay far below 2^63
         sc["np_types"] = prng.choice(("N", "keys", "both"))      # N and / or the key components as numpy int64 scalars
-    if sc["samples"] >= 2 and prng.random() < 0.4:
+    if prng.random() < 0.12 and "np_types" not in sc:
+        sc["loader"] = "empirical"
+        sc["via"] = "direct"
+        sc["samples"] = max(2, sc["samples"])
+    if sc["samples"] >= 2 and (prng.random() < 0.4 or sc.get("loader") == "empirical"):
         # history on ONE loader: between two samples the distribution it holds is edited IN PLACE through the loader's own
         # attribute (a parameter sweep over weights, keys replaced) - the next sample must follow the edited distribution
         edits = []
@@ -154,7 +158,17 @@ def n_arg(sc):
     return sc["N"]
 
 
+def empirical_rows(keys):
+    """A joint degree sequence whose empirical distribution has exactly these keys (multiplicities 1, 2, 3, 1, ...)."""
+    return [tuple(k) for i, k in enumerate(keys) for _ in range(1 + i % 3)]
+
+
 def build(sc):
+    if sc.get("loader") == "empirical":
+        # another loader class: the distribution is DERIVED from a sequence the loader holds, and is re-created
+        # (`empirical_jds = ...; create_jdd()`) rather than edited
+        obj = JointDegreeEmpirical({JointDegreeNames.MOTIF_SIZES: list(sc["sizes"]), JointDegreeNames.JDS: empirical_rows(sc["keys"])})
+        return obj, obj.jdd
     if sc.get("np_types") in ("keys", "both"):
         import numpy as np
         jdd = {tuple(np.int64(x) for x in k): w for k, w in zip(sc["keys"], sc["weights"])}
@@ -272,11 +286,19 @@ def execute(sc, ctx):
     for r in range(sc.get("samples", 1)):
         if r > 0 and sc.get("dist_edits") and r - 1 < len(sc["dist_edits"]):
             ed = sc["dist_edits"][r - 1]
-            d = obj.jdd                                  # the loader's own distribution object, edited in place
-            for k in ed["del"]:
-                d.pop(tuple(k), None)
-            for k, w in ed["set"]:
-                d[tuple(k)] = w
+            if sc.get("loader") == "empirical":
+                # re-create the already sampled loader from another sequence (the keys this edit step sets)
+                newk = [k for k, _ in ed["set"]] or [list(k) for k in obj.jdd]
+                obj.empirical_jds = empirical_rows(newk)
+                obj.create_jdd()
+                ctx.probe("empirical_loader_recreated_between_samples")
+                d = obj.jdd
+            else:
+                d = obj.jdd                              # the loader's own distribution object, edited in place
+                for k in ed["del"]:
+                    d.pop(tuple(k), None)
+                for k, w in ed["set"]:
+                    d[tuple(k)] = w
             if d:
                 jdd_before = dict(d)
                 caller_before = dict(jdd)
